@@ -55,3 +55,29 @@ Proof. intros HA Hx Hb Hp Hq. unfold relabel_system.
   rewrite <- Hlen in Hq. clear -Hq. set (v := rsub (rmv A x) b) in *.
   apply Permutation_trans with (map (fun i => nth i v 0) (seq 0 (length v))); [apply Permutation_map; exact Hq|].
   rewrite (map_nth_seq 0 v). apply Permutation_refl. Qed.
+
+(* ------------------------------------------------------------------ rotating the tissue (C06): every junction's two equations are rotated
+   together; the squared residual of the force-balance equations (without the multiplier column) is the same for every candidate *)
+Fixpoint rot_rows (c s : R) (M : list (list R)) : list (list R) :=
+  match M with
+  | rx :: ry :: t => radd (rscale c rx) (rscale (- s) ry) :: radd (rscale s rx) (rscale c ry) :: rot_rows c s t
+  | _ => M
+  end.
+Lemma rdot_add_l (u v x : list R) : length u = length v -> rdot (radd u v) x = rdot u x + rdot v x.
+Proof. revert v x; induction u as [|a u IH]; intros [|b v] x H; simpl in H; try lia; [unfold vdot; simpl; ring|].
+  destruct x as [|y x]; [rewrite !rdot_nil_r; ring|]. change (radd (a :: u) (b :: v)) with (a + b :: radd u v). rewrite !rdot_cons, IH by lia. ring. Qed.
+Lemma rdot_scale_l c (u x : list R) : rdot (rscale c u) x = c * rdot u x.
+Proof. rewrite rdot_comm, rdot_scale_r, rdot_comm. reflexivity. Qed.
+Lemma rotation_preserves_residual_k n (c s : R) (x : list R) : c * c + s * s = 1 ->
+  forall k M, length M = (2 * k)%nat -> rows_ok n M -> rsqn (rmv (rot_rows c s M) x) = rsqn (rmv M x).
+Proof. intros Hcs. induction k as [|k IH]; intros M Hl HA.
+  - destruct M; [reflexivity|discriminate].
+  - destruct M as [|rx [|ry t]]; [discriminate|simpl in Hl; lia|].
+    unfold rows_ok in HA. apply Forall_cons_iff in HA. destruct HA as [Hx HA1]. apply Forall_cons_iff in HA1. destruct HA1 as [Hy HA2].
+    cbn [rot_rows]. change (rmv (?a :: ?b :: ?l) x) with (rdot a x :: rdot b x :: rmv l x). unfold sqn. rewrite !rdot_cons.
+    fold (rsqn (rmv (rot_rows c s t) x)). fold (rsqn (rmv t x)). rewrite (IH t ltac:(simpl in Hl; lia) HA2).
+    rewrite !rdot_add_l by (rewrite !rscale_length; congruence). rewrite !rdot_scale_l.
+    set (u := rdot rx x). set (v := rdot ry x). set (w := rsqn (rmv t x)). nra. Qed.
+Theorem rotation_preserves_residual n (c s : R) (x : list R) (M : list (list R)) : c * c + s * s = 1 ->
+  rows_ok n M -> Nat.even (length M) = true -> rsqn (rmv (rot_rows c s M) x) = rsqn (rmv M x).
+Proof. intros Hcs HA He. apply Nat.even_spec in He. destruct He as [k Hk]. apply (rotation_preserves_residual_k n c s x Hcs k M Hk HA). Qed.
